@@ -21,6 +21,7 @@ type Out struct {
 	AgreeFn   string // case -> bool : model output == implementation output
 	SpecFn    string // case -> bool : spec predicate on the implementation output
 	ShardSize int
+	Prelude   string // Gallina definitions the case terms refer to, emitted before them in every shard
 
 	terms      []string
 	descs      []any
@@ -68,6 +69,7 @@ func (o *Out) Flush() error {
 		}
 		var b strings.Builder
 		fmt.Fprintf(&b, "From Mercure Require Import %s.\nOpen Scope N_scope.\n", o.Imports)
+		b.WriteString(o.Prelude)
 		fmt.Fprintf(&b, "Definition cases : list (%s) := [\n", o.CaseType)
 		for i := start; i < end; i++ {
 			b.WriteString("  ")
